@@ -334,6 +334,50 @@ func runC05ReusedFlow(c *Cfg) {
 			}
 		}
 	}
+	// the same flow object again: its FIRST run was not cut short at all (it succeeded under a context that is still
+	// alive, or a callback panicked and the caller recovered); the SECOND run's context is done before the run / is
+	// cancelled inside a callback: the second run is judged like any first run
+	var later []*scen.Scenario
+	for kind := 0; kind < scen.NumScriptedKinds; kind++ {
+		for depth := 0; depth <= 1; depth++ {
+			for _, first := range []string{"success", "panic-prep", "panic-exec", "panic-post"} {
+				for _, second := range []string{"pre-cancel", "pre-deadline", "cancel@0", "cancel@1", "deadline@1", "cancel-far@2"} {
+					v0 := scen.Visit{FirstOK: 1, Post: "go"}
+					if strings.HasPrefix(first, "panic-") {
+						v0.PanicIn = strings.TrimPrefix(first, "panic-")
+					}
+					n := 1
+					v1 := scen.Visit{FirstOK: 1, Post: "go"}
+					if scen.KindHasRetry(kind) {
+						n, v1.FirstOK = 3, 4 // the second run's attempts all fail: none may start after the cancellation
+					}
+					nodes := []scen.NodeSpec{{Kind: kind, N: n, Visits: []scen.Visit{v0, v1}},
+						{Kind: scen.KPlain, N: 1, Visits: []scen.Visit{{FirstOK: 1, Post: "fin"}, {FirstOK: 1, Post: "fin"}}},
+						{Kind: scen.KFlow, N: 1, Flow: &scen.FlowSpec{Start: 0, Conns: []scen.Conn{{From: 0, Action: "go", To: 1}}}}}
+					root := 2
+					if depth == 1 {
+						nodes = append(nodes, scen.NodeSpec{Kind: scen.KFlow, N: 1, Flow: &scen.FlowSpec{Start: 2}})
+						root = 3
+					}
+					inj := scen.Inject{Kind: second, OneRun: true, Run: 1}
+					if k, at, ok := strings.Cut(second, "@"); ok {
+						inj.Kind = k
+						inj.At = int(at[0] - '0')
+					}
+					later = append(later, &scen.Scenario{Nodes: nodes, Root: root, Runs: 2, UseFlowRun: (kind+depth)%2 == 0, Inject: inj})
+				}
+			}
+		}
+	}
+	parallel(c, len(later), func(i int) {
+		sc := later[i]
+		r.EvalN(2)
+		r.Count("inject.later-run-of-a-reused-flow", 1)
+		for _, f := range laterRunFindings(c, sc) {
+			r.Violate("C05", "C05:"+f.Key, f.Detail, ScenCase{"later-run-of-a-reused-flow", sc})
+		}
+		r.Nontrivial("lr:" + scenSig(sc))
+	})
 	parallel(c, len(cases), func(i int) {
 		sc := cases[i]
 		x := scen.NewExec(sc)
@@ -360,6 +404,26 @@ func runC05ReusedFlow(c *Cfg) {
 		}
 		r.Nontrivial("rf:" + scenSig(sc))
 	})
+}
+
+// laterRunFindings judges the SECOND run of a scenario whose first run succeeded / panicked (see runC05ReusedFlow).
+func laterRunFindings(c *Cfg, sc *scen.Scenario) []scen.Finding {
+	x := scen.NewExec(sc)
+	_ = x.RunOnce() // the first run: succeeds or panics (recovered); not judged here
+	o := x.RunOnce()
+	one := sc.Clone()
+	one.Inject.OneRun = false
+	plain := sc.Clone() // reference: the same two runs, the second one un-cancelled
+	plain.Inject = scen.Inject{}
+	xr := scen.NewExec(plain)
+	_ = xr.RunOnce()
+	ref := keysOf(xr.RunOnce().Events)
+	how := map[bool]string{true: "panicked in a callback (recovered by the caller)", false: "succeeded under a context that is still alive"}[sc.Nodes[0].Visits[0].PanicIn != ""]
+	fs := judgeC05(c, one, ref, &o, false)
+	for i := range fs {
+		fs[i].Detail = "second run of a flow object whose first run " + how + ": " + fs[i].Detail
+	}
+	return fs
 }
 
 func runC05(c *Cfg) {
@@ -454,6 +518,13 @@ func replayC05(c *Cfg, spec json.RawMessage) {
 	var cs ScenCase
 	if err := json.Unmarshal(spec, &cs); err != nil || cs.Scenario == nil {
 		fmt.Println("cannot parse case:", err)
+		return
+	}
+	if cs.Family == "later-run-of-a-reused-flow" {
+		for _, f := range laterRunFindings(c, cs.Scenario) {
+			fmt.Printf(" * finding %s: %s\n", f.Key, f.Detail)
+			c.Rep.Violate("C05", "C05:"+f.Key, f.Detail, cs)
+		}
 		return
 	}
 	if cs.Family == "reused-flow" {
